@@ -45,9 +45,10 @@ class NDCubeSlicingMixin(NDSlicingMixin):
         """
         if isinstance(axis_item, slice):
             start, stop, _ = axis_item.indices(axis_length)
+            # A step of 1 is no step: written out, it would make the sliced WCS refuse any further slicing.
             return slice(None if axis_item.start is None else start,
                          None if axis_item.stop is None else stop,
-                         axis_item.step)
+                         None if axis_item.step == 1 else axis_item.step)
         index = int(axis_item)
         if index < 0:
             index += axis_length
